@@ -551,7 +551,12 @@ def check_time_average(run, pkg):
            witness=None if ok_rows else "window count wrong", loc=fi.loc(), sound=True)
     ok_dom = eqv(L.iter, ("call", "builtins.range", (("sub", ("attr", res, "shape"), C(0)),), ()))
     run.ob("R-LOOPDOM", fq, "windows", ok_dom, "every window start is visited", show(L.iter)[:80], witness=None if ok_dom else "windows skipped", loc=fi.loc(L.node), sound=True)
-    if is_trunc:
+    fd = float_floordiv(w)
+    if fd is not None:
+        run.ob("R-TRUNC", fq, "window-length:float-floordiv", False, "window length is floor(period/interval), exact multiples included",
+               f"w = {show(w)[:100]}: float floor division", witness="time_period = 1.0, frame interval = 0.1 (dt = 0.002, dump every 50 steps): 1.0 // 0.1 == 9.0 -> a window of 9 frames, "
+               "the property requires 10 (float floor division rounds the quotient of the binary operands down)", loc=fi.loc(), sound=True)
+    elif is_trunc:
         # floor of a float quotient without tolerance: period = k * interval can come out as k - 1
         run.ob("R-TRUNC", fq, "window-length:float-truncation", False, "window length is floor(period/interval), exact multiples included",
                f"w = {sp.sstr(gw)}: a float quotient is truncated with no tolerance",
